@@ -301,7 +301,7 @@ func (fr *frame) applyContract(instr *ssa.Call, callee *ssa.Function, c *ssa.Cal
 			e.contractError(r, err)
 			continue
 		}
-		fr.oblig("pre", r.Props, pos, fmt.Sprintf("%s requires %s", cname, r.Text), reach, goal)
+		fr.oblig("pre", r.Props, pos, fmt.Sprintf("%s requires %s", cname, r.name()), reach, goal)
 	}
 	// frame
 	ms := map[string]int{}
